@@ -4647,6 +4647,15 @@ class ParseCtx:
 
         return result
 
+    # names that cannot be used for members of the generated struct: keywords of C and C++, and the name the generated code uses for the input byte
+    _RESERVED_OUTPUT_NAMES = frozenset("""
+        auto break case char const continue default do double else enum extern float for goto if inline int long register restrict return
+        short signed sizeof static struct switch typedef union unsigned void volatile while _Bool _Complex _Imaginary
+        alignas alignof and and_eq asm bitand bitor bool catch char16_t char32_t class compl constexpr const_cast decltype delete
+        dynamic_cast explicit export false friend mutable namespace new noexcept not not_eq nullptr operator or or_eq private protected
+        public reinterpret_cast static_assert static_cast template this thread_local throw true try typeid typename using virtual wchar_t
+        xor xor_eq inval""".split())
+
     def _parse_out_decl(self, decl: lark.Tree) -> OutputStorage:
         """
         Parse an output declaration
@@ -4654,6 +4663,9 @@ class ParseCtx:
 
         type_obj = decl.children[0]
         name = decl.children[1].value
+        if name in self._RESERVED_OUTPUT_NAMES:
+            # the name becomes a member of the state struct in the generated header, which is also included from C++
+            raise IllegalParseTree("Output name is a reserved word in the generated C/C++ code", decl.children[1])
         if len(decl.children) == 3:
             if type_obj.data not in ["str_type", "unterm_str_type"]:
                 default_value = self._parse_integer_expr(decl.children[2])
